@@ -378,8 +378,14 @@ func (e *Engine) binop(fr *Frame, st *State, op token.Token, av, bv Val, at type
 			case *FuncV:
 				return tFalse, true
 			case *MergeV:
-				_ = f
-				return tFalse, true
+				// nil exactly under the guards whose alternative is the nil function
+				r := tFalse
+				for i, alt := range f.vals {
+					if t, ok := alt.(T); ok {
+						r = tOr(r, tAnd(f.guards[i], tEq(t, T{"nil_func", sFunc})))
+					}
+				}
+				return r, true
 			case T:
 				return tEq(f, T{"nil_func", sFunc}), true
 			}
